@@ -104,43 +104,53 @@ func (g *gen) tval(e *elem) string {
 	return e.typed(g.val(e))
 }
 
+// AvoidNonInt is switched on while finding F-C08-1 is listed as known: index
+// expressions used as places, slice bounds and make sizes of an integer type other
+// than int are rejected by gomacro; the generator then renders them as int and counts.
+var AvoidNonInt bool
+var excludedNonInt func()
+
 // intForm renders the int value v either as a literal (constant path of the
-// interpreter) or through a fresh local variable (run-time path); constOK says whether
-// a constant is acceptable to the Go type checker at that position.
-func (g *gen) intForm(v int, constOK bool, what string) string {
-	if constOK && v >= 0 && g.Chance(1, 3, "const-"+what) {
+// interpreter) or through a fresh local variable of type int, uint8, int64 or uint
+// (run-time path); constOK says whether a constant is acceptable to the Go type
+// checker at that position; site is "read" (index in an rvalue), "place" (index in an
+// assignment target or under &), "slice" (slice bound) or "make".
+func (g *gen) intForm(v int, constOK bool, site string) string {
+	if constOK && v >= 0 && g.Chance(1, 3, "const-"+site) {
 		g.Tag("bound-form:const")
 		return fmt.Sprint(v)
 	}
 	name := g.Local("n")
-	switch g.Pick(8, "var-form-"+what) {
+	typ := ""
+	switch g.Pick(10, "var-form-"+site) {
 	case 0:
 		if v >= 0 && v <= 255 {
-			g.Tag("bound-form:uint8-var")
-			g.emit("var %s uint8 = %d", name, v)
-			g.Meta("nonint-index")
-			return name
+			typ = "uint8"
 		}
 	case 1:
-		g.Tag("bound-form:int64-var")
-		g.emit("var %s int64 = %d", name, v)
-		g.Meta("nonint-index")
-		return name
+		typ = "int64"
 	case 2:
 		if v >= 0 {
-			g.Tag("bound-form:uint-var")
-			g.emit("var %s uint = %d", name, v)
-			g.Meta("nonint-index")
-			return name
+			typ = "uint"
 		}
+	}
+	if typ != "" && site != "read" && AvoidNonInt {
+		if excludedNonInt != nil {
+			excludedNonInt()
+		}
+		typ = ""
+	}
+	if typ != "" {
+		g.Tag("bound-form:" + typ + "-var:" + site)
+		g.emit("var %s %s = %d", name, typ, v)
+		return name
 	}
 	g.Tag("bound-form:int-var")
 	g.emit("%s := %d", name, v)
 	return name
 }
 
-// intVar renders v through an int variable or (when allowed) a constant: used where
-// gomacro documents / Go requires plain int.
+// intOnly renders v through an int variable or (when allowed) a constant.
 func (g *gen) intOnly(v int, constOK bool, what string) string {
 	if constOK && v >= 0 && g.Chance(1, 3, "const-"+what) {
 		g.Tag("bound-form:const")
@@ -152,7 +162,6 @@ func (g *gen) intOnly(v int, constOK bool, what string) string {
 	return name
 }
 
-func (g *gen) Meta(f string) { g.Tag("feature:" + f) }
 
 // pos names the position of a bound relative to len and cap for the histogram.
 func pos(v, l, c int) string {
@@ -359,7 +368,7 @@ func (g *gen) sliceIndexRead(s *slv) {
 	if adjacent(i, s.len, s.len) {
 		g.ntMark("bounds-adjacent-index")
 	}
-	ix := g.intForm(i, true, "idx")
+	ix := g.intForm(i, true, "read")
 	g.maybeRisky(i < 0 || i >= s.len, fmt.Sprintf("rec.E(%d, %s[%s])", g.Ev(), s.name, ix))
 }
 
@@ -369,7 +378,7 @@ func (g *gen) sliceIndexWrite(s *slv, vars []*slv) {
 	if adjacent(i, s.len, s.len) {
 		g.ntMark("bounds-adjacent-index")
 	}
-	ix := g.intForm(i, true, "idx")
+	ix := g.intForm(i, true, "place")
 	g.maybeRisky(i < 0 || i >= s.len, fmt.Sprintf("%s[%s] = %s", s.name, ix, g.val(s.e)))
 	// the write is visible through every alias
 	for _, v := range vars {
@@ -396,11 +405,11 @@ func (g *gen) slice2(s *slv) *slv {
 	// Go rejects constant lo > constant hi at compile time
 	loConst := true
 	if form == 0 || form == 2 {
-		los = g.intForm(lo, loConst, "lo")
+		los = g.intForm(lo, loConst, "slice")
 	}
 	if form == 1 || form == 2 {
 		hiConstOK := !(isLit(los) && hi < lo)
-		his = g.intForm(hi, hiConstOK, "hi")
+		his = g.intForm(hi, hiConstOK, "slice")
 	}
 	ok := lo >= 0 && lo <= hi && hi <= s.cap && (s.capKnown || hi <= s.len)
 	if !s.capKnown && hi > s.len && hi < s.len+1000 {
@@ -439,10 +448,10 @@ func (g *gen) slice3(s *slv) *slv {
 	if omitLo {
 		lo = 0
 	} else {
-		los = g.intForm(lo, true, "lo")
+		los = g.intForm(lo, true, "slice")
 	}
-	his := g.intForm(hi, !(isLit(los) && hi < lo), "hi")
-	mxs := g.intForm(mx, !(isLit(his) && mx < hi) && !(isLit(los) && mx < lo), "max")
+	his := g.intForm(hi, !(isLit(los) && hi < lo), "slice")
+	mxs := g.intForm(mx, !(isLit(his) && mx < hi) && !(isLit(los) && mx < lo), "slice")
 	ok := lo >= 0 && lo <= hi && hi <= mx && mx <= s.cap
 	g.Tag(fmt.Sprintf("slice3:slice:hi=%s,max=%s", pos(hi, s.len, s.cap), pos(mx, s.len, s.cap)))
 	g.ntMark("bounds-adjacent-slice3")
@@ -467,7 +476,7 @@ func (g *gen) appendOp(s *slv, vars []*slv) *slv {
 		g.Tag("append:cap-clamped-base")
 	} else if s.len > 0 && g.Chance(1, 3, "append-prefix") {
 		k := g.validBound(0, s.len, "prefix")
-		base = fmt.Sprintf("%s[:%s]", s.name, g.intForm(k, true, "prefix"))
+		base = fmt.Sprintf("%s[:%s]", s.name, g.intForm(k, true, "slice"))
 		bl = k
 		g.Tag("append:to-prefix")
 	}
@@ -544,7 +553,7 @@ func (g *gen) copyOp(s *slv, vars []*slv) {
 	b := g.validBound(0, o.len, "copy-b")
 	dst := s.name
 	if a > 0 || g.Bool("copy-dst-sliced") {
-		dst = fmt.Sprintf("%s[%s:]", s.name, g.intForm(a, true, "copy-a"))
+		dst = fmt.Sprintf("%s[%s:]", s.name, g.intForm(a, true, "slice"))
 	} else {
 		a = 0
 	}
@@ -554,7 +563,7 @@ func (g *gen) copyOp(s *slv, vars []*slv) {
 		g.Tag("copy:string-src")
 	} else {
 		if b > 0 || g.Bool("copy-src-sliced") {
-			src = fmt.Sprintf("%s[%s:]", o.name, g.intForm(b, true, "copy-b"))
+			src = fmt.Sprintf("%s[%s:]", o.name, g.intForm(b, true, "slice"))
 		} else {
 			b = 0
 		}
@@ -581,7 +590,7 @@ func (g *gen) elemPointer(s *slv, vars []*slv) {
 	p := g.Local("p")
 	g.Tag("addr-of-elem:slice:" + pos(i, s.len, s.len))
 	g.emit("var %s *%s", p, s.e.typ)
-	ix := g.intForm(i, true, "idx")
+	ix := g.intForm(i, true, "place")
 	ok := i >= 0 && i < s.len
 	g.maybeRisky(!ok, fmt.Sprintf("%s = &%s[%s]", p, s.name, ix))
 	if adjacent(i, s.len, s.len) {
@@ -668,7 +677,7 @@ func (g *gen) arrayScenario() {
 			tgt := g.OneOf("array-tgt", a, b, p)
 			g.Tag("index-read:" + tgtKind(tgt, p) + ":" + pos(i, n, n))
 			g.ntMark("bounds-adjacent-index")
-			ix := g.intForm(i, constOK, "idx")
+			ix := g.intForm(i, constOK, "read")
 			g.maybeRisky(!constOK, fmt.Sprintf("rec.E(%d, %s[%s])", g.Ev(), tgt, ix))
 		case 2, 3: // index write
 			i := g.bound(n, n, true, "idx")
@@ -676,7 +685,7 @@ func (g *gen) arrayScenario() {
 			tgt := g.OneOf("array-tgt", a, b, p)
 			g.Tag("index-write:" + tgtKind(tgt, p) + ":" + pos(i, n, n))
 			g.ntMark("bounds-adjacent-index")
-			ix := g.intForm(i, constOK, "idx")
+			ix := g.intForm(i, constOK, "place")
 			g.maybeRisky(!constOK, fmt.Sprintf("%s[%s] = %s", tgt, ix, g.val(e)))
 			recAll()
 		case 4, 5: // slice the array or the pointer: the slice aliases the array
@@ -700,12 +709,12 @@ func (g *gen) arrayScenario() {
 				}
 			}
 			// constants must satisfy the static checks: 0 <= c <= len(array), ordered
-			los := g.intForm(lo, lo >= 0 && lo <= n, "lo")
-			his := g.intForm(hi, hi >= 0 && hi <= n && !(isLit(los) && hi < lo), "hi")
+			los := g.intForm(lo, lo >= 0 && lo <= n, "slice")
+			his := g.intForm(hi, hi >= 0 && hi <= n && !(isLit(los) && hi < lo), "slice")
 			ok := lo >= 0 && lo <= hi && hi <= n
 			expr := fmt.Sprintf("%s[%s:%s]", tgt, los, his)
 			if three {
-				mxs := g.intForm(mx, mx >= 0 && mx <= n && !(isLit(his) && mx < hi) && !(isLit(los) && mx < lo), "max")
+				mxs := g.intForm(mx, mx >= 0 && mx <= n && !(isLit(his) && mx < hi) && !(isLit(los) && mx < lo), "slice")
 				ok = ok && hi <= mx && mx <= n
 				expr = fmt.Sprintf("%s[%s:%s:%s]", tgt, los, his, mxs)
 				g.Tag(fmt.Sprintf("slice3:%s:hi=%s,max=%s", tgtKind(tgt, p), pos(hi, n, n), pos(mx, n, n)))
@@ -752,9 +761,9 @@ func (g *gen) arrayScenario() {
 		g.emit("rec.E(%d, len(%s), cap(%s), %s == nil)", g.Ev(), q, q, q)
 		switch g.Pick(5, "nil-array-op") {
 		case 0:
-			g.risky(fmt.Sprintf("rec.E(%d, %s[%s])", g.Ev(), q, g.intForm(0, n > 0, "idx")))
+			g.risky(fmt.Sprintf("rec.E(%d, %s[%s])", g.Ev(), q, g.intForm(0, n > 0, "read")))
 		case 1:
-			g.risky(fmt.Sprintf("%s[%s] = %s", q, g.intForm(0, n > 0, "idx"), g.val(e)))
+			g.risky(fmt.Sprintf("%s[%s] = %s", q, g.intForm(0, n > 0, "place"), g.val(e)))
 		case 2:
 			g.risky(fmt.Sprintf("rec.E(%d, %s[:])", g.Ev(), q))
 		case 3:
@@ -796,7 +805,7 @@ func (g *gen) stringScenario() {
 			ok := i >= 0 && i < n
 			g.Tag("index-read:string:" + pos(i, n, n))
 			g.ntMark("bounds-adjacent-index")
-			ix := g.intForm(i, ok || !isConst, "idx")
+			ix := g.intForm(i, ok || !isConst, "read")
 			g.maybeRisky(!ok, fmt.Sprintf("rec.E(%d, %s[%s])", g.Ev(), s, ix))
 		case 2, 3:
 			lo := g.bound(n, n, true, "lo")
@@ -807,12 +816,12 @@ func (g *gen) stringScenario() {
 			form := g.Pick(3, "string-slice-form")
 			var los, his string
 			if form != 1 {
-				los = g.intForm(lo, !isConst || lo <= n, "lo")
+				los = g.intForm(lo, !isConst || lo <= n, "slice")
 			} else {
 				lo = 0
 			}
 			if form != 0 {
-				his = g.intForm(hi, (!isConst || hi <= n) && !(isLit(los) && hi < lo), "hi")
+				his = g.intForm(hi, (!isConst || hi <= n) && !(isLit(los) && hi < lo), "slice")
 			} else {
 				hi = n
 			}
@@ -1028,7 +1037,7 @@ func (g *gen) structScenario() {
 			i := g.bound(2, 2, true, "idx")
 			ok := i >= 0 && i < 2
 			g.ntMark("bounds-adjacent-index")
-			g.maybeRisky(!ok, fmt.Sprintf("%s.A[%s] = %d", tgt, g.intForm(i, ok, "idx"), g.Int(0, 255, "u8")))
+			g.maybeRisky(!ok, fmt.Sprintf("%s.A[%s] = %d", tgt, g.intForm(i, ok, "place"), g.Int(0, 255, "u8")))
 			recQ()
 		case 3:
 			g.Tag("struct:assign-embedded-whole")
@@ -1084,7 +1093,7 @@ func (g *gen) structScenario() {
 			ok := i >= 0 && i < 3
 			g.ntMark("bounds-adjacent-index")
 			g.Tag("struct:field-of-slice-elem")
-			g.maybeRisky(!ok, fmt.Sprintf("%s[%s].X = %s", sl, g.intForm(i, true, "idx"), g.val(g.fieldElem("X"))))
+			g.maybeRisky(!ok, fmt.Sprintf("%s[%s].X = %s", sl, g.intForm(i, true, "place"), g.val(g.fieldElem("X"))))
 			pe := g.Local("pe")
 			g.emit("%s := &%s[1]\n%s.Y = %s", pe, sl, pe, g.val(g.fieldElem("Y")))
 			g.emit("rec.E(%d, %s, *%s)", g.Ev(), sl, pe)
@@ -1094,7 +1103,7 @@ func (g *gen) structScenario() {
 			g.emit("%s := []*%s{%s, nil, {}}", sp, P, elide(g.val(g.structP), P))
 			i := g.bound(3, 3, true, "idx")
 			g.ntMark("bounds-adjacent-index")
-			g.risky(fmt.Sprintf("%s[%s].X = %s", sp, g.intForm(i, true, "idx"), g.val(g.fieldElem("X"))))
+			g.risky(fmt.Sprintf("%s[%s].X = %s", sp, g.intForm(i, true, "read"), g.val(g.fieldElem("X"))))
 			g.emit("rec.E(%d, %s)", g.Ev(), sp)
 		case 9: // new and &T{}
 			n1, n2 := g.Local("n"), g.Local("n")
@@ -1136,7 +1145,7 @@ func (g *gen) makeScenario() {
 	l := g.Int(-1, 3, "make-len")
 	if g.Bool("make-2") {
 		g.Tag("make:len:" + pos(l, 0, 0))
-		ls := g.intForm(l, true, "mklen")
+		ls := g.intForm(l, true, "make")
 		g.maybeRisky(l < 0, fmt.Sprintf("%s = make([]%s, %s)", s, e.typ, ls))
 	} else {
 		c := l + g.Int(-1, 2, "make-cap-delta")
@@ -1144,8 +1153,8 @@ func (g *gen) makeScenario() {
 			c = -1
 		}
 		g.Tag(fmt.Sprintf("make:len-vs-cap:%s", pos(l, c, c)))
-		ls := g.intForm(l, true, "mklen")
-		cs := g.intForm(c, !(isLit(ls) && c < l), "mkcap")
+		ls := g.intForm(l, true, "make")
+		cs := g.intForm(c, !(isLit(ls) && c < l), "make")
 		g.ntMark("make-len-cap-adjacent")
 		g.maybeRisky(l < 0 || c < l, fmt.Sprintf("%s = make([]%s, %s, %s)", s, e.typ, ls, cs))
 	}
@@ -1174,7 +1183,7 @@ func (g *gen) literalScenario() {
 	case 3:
 		g.Tag("literal:nested-slices-elided")
 		g.emit("%s := [][]%s{{%s, %s}, {}, nil, {%s}}", x, e.typ, g.val(e), g.val(e), g.val(e))
-		g.risky(fmt.Sprintf("rec.E(%d, %s[%s][%s])", g.Ev(), x, g.intForm(g.Int(0, 4, "i"), true, "idx"), g.intForm(g.Int(0, 2, "j"), true, "idx")))
+		g.risky(fmt.Sprintf("rec.E(%d, %s[%s][%s])", g.Ev(), x, g.intForm(g.Int(0, 4, "i"), true, "read"), g.intForm(g.Int(0, 2, "j"), true, "read")))
 		g.ntMark("bounds-adjacent-index")
 	case 4:
 		g.Tag("literal:array-of-arrays")
